@@ -16,7 +16,36 @@ RCDOM = ("A2/TreeSink: markup5ever_rcdom.rs is the upstream reference TreeSink; 
          "TreeSink contract (the tree builder only passes handles it obtained from this sink, in the state the "
          "contract prescribes); cells are borrowed only for the duration of one statement during parsing")
 
+SBS = ("INV-SBS: this code runs only in the side-by-side layout, where every column width is min(size estimate, ·) "
+       "(render_table_tree's first collect) or that value decreased by the shrink loop: a column width never exceeds the "
+       "column's size estimate, which is memory-bounded (A1); the user-supplied renderer width enters col_widths only in "
+       "the stacked branch (`vert_row`), which never reaches this code (into_cells' vertical branch copies one entry, "
+       "append_vert_row replaces append_columns_with_borders, the shrink loop and table_width sum are under !vert_row)")
+EST = ("INV-EST-A1: size estimates are sums of display widths of document text plus prefix widths and, for tables, "
+       "num_columns − 1 separators with num_columns bounded by INV-REMAP: memory-bounded (A1)")
+
 R = [
+    # ---- sites whose operands get their magnitude through a closure passed to an iterator adaptor (the magnitude
+    #      analysis follows closure results since the soundness correction recorded in DESIGN section 9)
+    (r"append_columns_with_borders:Add\(pos, \(w \+ 1_usize\)\)$", SBS + "; pos is a running sum of (w + 1) over the columns"),
+    (r"append_columns_with_borders:Add\(pos, w\)$", SBS),
+    (r"append_columns_with_borders:Add\(w, 1_usize\)$", SBS),
+    (r"^RenderTable::calc_size_estimate:Add\(<std::vec::Vec<T, A> as std::ops::IndexMut<I>>::index_mut\(&mut sizes", EST),
+    (r"^RenderTable::calc_size_estimate:Add\(Iterator::sum\(", EST),
+    (r"^RenderTable::calc_size_estimate:sum\(", EST),
+    (r"^RenderTable::calc_size_estimate:from_elem\(", "INV-REMAP: num_columns is the maximum over the rows of Σ remapped colspan, bounded by the number of cells (see tables/mag_invariants.txt)"),
+    (r"^render_table_tree:from_elem\(<SizeEstimate as std::default::Default>::default\(\), num_columns\)$", "INV-REMAP: num_columns is bounded by the number of cells"),
+    (r"^RenderTableRow::into_cells:sum\(", SBS + " (this is the non-vertical branch: `if vertical` copies a single entry instead)"),
+    (r"^RenderTableRow::num_cells:sum\(", "INV-REMAP: num_cells is called only by RenderTable::new after the remap loop (side condition: sole caller), when every colspan is an index difference"),
+    (r"^SizeEstimate::add:Add\(self.size, other.size\)$", EST),
+    (r"^SizeEstimate::add_hor:Add\(self\.(size|min_width), other\.(size|min_width)\)$", EST),
+    (r"BorderHoriz::<T>::join_(above|below):Add\(x, 1_usize\)$", "x is a junction position pos + w inside a side-by-side table: " + SBS),
+    (r"BorderHoriz::<T>::merge_from_(below|above):Add\(idx, pos\)$", "idx indexes the nested border's segments and pos is a column position inside a side-by-side table: " + SBS),
+    (r"^render_table_tree:Add\(Iterator::sum\(<impl \[T\]>::iter\(&<std::vec::Vec<T, A> as std::ops::Deref>::deref\(&col_widths\)\)\), ", SBS + " (under `if !vert_row`; rule C06-C checks that guard)"),
+    (r"^render_table_tree:sum\(<impl \[T\]>::iter\(&<std::vec::Vec<T, A> as std::ops::Deref>::deref\(&col", SBS + " (under `if !vert_row` / the else branch of `if vert_row`; rules C06-C and C05-H check those guards)"),
+    (r"^render_table_tree:Add\(Iterator::sum\(Iterator::map\(", EST),
+    (r"^render_table_tree:sum\(Iterator::map\(", EST),
+    (r"^tbody_to_render_tree::\{closure:\+TableBody,cells_mut\}:Add\(<&usize as std::ops::Sub<usize>>::sub\(max_columns, num_cols\), 1_usize\)$", "num_cols >= 1 for a row that contains a zero-colspan cell (each cell counts max(colspan, 1)), so max_columns − num_cols + 1 <= max_columns"),
     # ---- css.rs
     (r"^css::Selector::do_matches:Sub\(idx, .*from\(b\)\)$", "idx counts element siblings (<= 2^62, A1) and b is an i32 widened to i64: |idx - b| < 2^63"),
     (r"^css::Selector::do_matches:(Rem|Div)\(idx_offset, a\)$", "signed overflow needs idx_offset == i64::MIN, but idx_offset = idx - b with idx >= 1 and b >= -2^31"),
